@@ -19,12 +19,35 @@ limitations under the License.
 #include "issue_p.h"
 #include "utilities.h"
 
+#ifdef LIBCELLML_VERIF
+#    include "verifhooks.h"
+#endif
+
 namespace libcellml {
 
 IssuePtr Issue::IssueImpl::create()
 {
     return std::shared_ptr<Issue> {new Issue {}};
 }
+
+#ifdef LIBCELLML_VERIF
+struct VerifAccess
+{
+    static IssuePtr createIssue(Issue::ReferenceRule rule, Issue::Level level)
+    {
+        auto issue = Issue::IssueImpl::create();
+        issue->mPimpl->setReferenceRule(rule);
+        issue->mPimpl->setLevel(level);
+        issue->mPimpl->setDescription("verification issue");
+        return issue;
+    }
+};
+
+IssuePtr verif::createIssue(Issue::ReferenceRule rule, Issue::Level level)
+{
+    return VerifAccess::createIssue(rule, level);
+}
+#endif
 
 void Issue::IssueImpl::setDescription(const std::string &description)
 {
